@@ -15,6 +15,7 @@ import (
 )
 
 var required = []string{
+	"signal-id:round-trip", "signal-id:oversize-refused", "content:feeds:oversize-signal-id-rejected", "content:tunnel:oversize-signal-id-rejected", "direct:feeds:oversize-signal-id-rejected",
 	"orig:DirectOriginator", "orig:TunnelOriginator", "encode-signing", "tag-constant",
 	"tick:boundary", "tick:below-boundary", "tick:midpoint", "tick:dense", "tick:special", "tick:price-band-1e-15",
 	"content:text:Text", "content:oracle:Proto", "content:oracle:FullABI", "content:oracle:PartialABI",
@@ -48,7 +49,7 @@ func run(r *engine.Run, only string) {
 		"contents through the sealed real content router: 15 user texts (0..1001 bytes, imitations of other kinds); oracle results with clientID/calldata/result lengths {0,1,33} (thorough +32) x " +
 		"os{0,1,max} x ask{0,max} x min{0,max} x rid{1,2,max} x ans{0,max} x request_time{0,-1,max} x resolve_time{0,max} x status{0..3} (thorough + int64/int32 extremes) x 3 encoders; " +
 		"feeds lists of 0..2 signals from 4 ids (thorough 6 ids and lists of 3) x {absent,0,1,1e9,1000099999,2^64-1} x 2 encoders x block times {0,now,9999-12-31} (thorough +1); " +
-		"tunnel packets seq{0,1,max} x 25 price lists x created_at{0,1,-1,now,max} x 2 encoders; transitions 3 keys x 4 times; unknown encoders and >32-byte signal ids executed and labelled; " +
+		"tunnel packets seq{0,1,max} x 25 price lists x created_at{0,1,-1,now,max} x 2 encoders; transitions 3 keys x 4 times; signal ids of 31/32/33/34 bytes built from 2-, 3- and 4-byte runes and ids of 32+w bytes whose last 32 bytes are a legal id (pure StringToBytes32, feeds and tunnel handlers, real MsgRequestSignature): <=32 bytes must round-trip, >32 bytes must be refused, never truncated; unknown encoders executed and labelled; " +
 		"real MsgRequestSignature: 3 senders (2 users, the module authority) x 8 memos (0..101 chars, case/space variants) x 4 block times x signing ids {1,2,2^64-1} x 11 contents, plus the same request twice in one block; " +
 		"users requesting internal kinds: 54 tunnel packets + 13 transitions + zero values x 6 senders (2 users, validator, module authority, bandtss module account, funded tss member; each must fail with ErrContentNotAllowed and leave the tss and bandtss signing counts unchanged) x 2 memos, and every registered Content implementation; " +
 		"real tunnel create/fund/activate/trigger: 14^2 (thorough 15^2) destination chain x contract strings (incl. empty -> rejected, case-only / space variants, EIP-55 / lower / base58 addresses, ETH/eth) x tunnel ids {1,2,2^64-1} x 2 encoders x 3 feed states x {(now,id 1),(9999-12-31,id 2^64-1)}, plus an upper-case source chain id for tunnel id 1; signed prefix message[0:32] of every accepted request kept in an injectivity set keyed by the stored route (source chain, tunnel id, destination chain, contract) resp. (chain, requester, memo); " +
@@ -77,6 +78,9 @@ func run(r *engine.Run, only string) {
 	}
 	if want("tags") {
 		runTags(t)
+	}
+	if want("signal-id") {
+		runSignalIDs(t)
 	}
 	fmt.Printf("[C11] pure sections done: evaluations=%d violations=%d (%.1fs)\n", t.Evals, t.Violations(), time.Since(t0).Seconds())
 
